@@ -12,6 +12,7 @@ from __future__ import annotations
 
 import cmath
 import itertools
+import json
 from fractions import Fraction
 
 PROPERTY = "C18"
@@ -380,10 +381,14 @@ def eval_case(case):
         {"x": ("expr", "y+1")},
         {"y": ("expr", "x*x")},
         {"x": ("num", Fraction(5, 3)), "y": ("num", Fraction(-2, 3))},
+        {"x": ("num", Fraction(0)), "y": ("num", Fraction(2))},
+        {"y": ("num", Fraction(7, 4))},
     ]
     for fmap in free_maps:
         if not set(fmap) <= want_free:
             continue
+        if any(v == ("num", Fraction(0)) for v in fmap.values()) and '"pow"' in json.dumps(ast):
+            continue  # 0**i is undefined for the negative pool values
         rule, env2 = {}, dict(env)
         for name, (kind, val) in fmap.items():
             if kind == "num":
@@ -395,9 +400,17 @@ def eval_case(case):
                     {sp.Symbol(k): sp.Rational(v.numerator, v.denominator)
                      for k, v in env.items()}))
         want2 = ref_value(ast, env2)
-        for how in ("subs", "xreplace"):
+        # plain (sequential) subs, simultaneous subs and xreplace take different routes
+        # through the class; the maps used here have no chained targets, so all three must
+        # give the substituted reference
+        for how in ("subs", "subs-sequential", "xreplace"):
             n_ops += 1
-            new = ps.subs(rule, simultaneous=True) if how == "subs" else ps.xreplace(rule)
+            if how == "subs":
+                new = ps.subs(rule, simultaneous=True)
+            elif how == "subs-sequential":
+                new = ps.subs(rule)
+            else:
+                new = ps.xreplace(rule)
             got = lib_value(new, env)
             if not close(got, want2):
                 bad(f"{how}-free", f"{fmap}: value {got} != substituted reference {want2}")
